@@ -187,6 +187,67 @@ theorem revBits_xor (n a b : Nat) : revBits n (a ^^^ b) = revBits n a ^^^ revBit
     rw [e1, e2, ih]
     exact hi_lo_xor n _ _ _ _ (Nat.mod_lt _ (by decide)) (Nat.mod_lt _ (by decide)) (revBits_lt _ _) (revBits_lt _ _)
 
+
+theorem step_sub (p q : Nat) (ba bb : Bool) (h : Sub p q) (hb : ba = true → bb = true) :
+    Sub (2 * p + (if ba then 1 else 0)) (2 * q + (if bb then 1 else 0)) := by
+  intro j hj
+  have e : ∀ (a : Nat) (b : Bool), (2 * a + (if b then 1 else 0)).testBit j =
+      if j < 1 then (if b then 1 else 0 : Nat).testBit j else a.testBit (j - 1) := by
+    intro a b
+    have := Nat.testBit_two_pow_mul_add a (b := if b then 1 else 0) (i := 1) (by cases b <;> decide) j
+    simpa using this
+  rw [e] at hj ⊢
+  by_cases hj1 : j < 1
+  · have : j = 0 := by omega
+    subst this
+    cases ba
+    · simp at hj
+    · simp [hb rfl]
+  · simp only [hj1, if_false] at hj ⊢
+    exact h _ hj
+
+open Spec in
+theorem permF_sub (tbl : List Nat) (n a sa : Nat) (h : Sub a sa) : Sub (permF tbl n a) (permF tbl n sa) := by
+  unfold permF
+  have gen : ∀ (p q : Nat), Sub p q →
+      Sub (tbl.foldl (fun acc j => 2 * acc + (if fbit n a j then 1 else 0)) p)
+        (tbl.foldl (fun acc j => 2 * acc + (if fbit n sa j then 1 else 0)) q) := by
+    induction tbl with
+    | nil => intro p q hpq; exact hpq
+    | cons t ts ih =>
+      intro p q hpq
+      simp only [List.foldl_cons]
+      exact ih _ _ (step_sub p q _ _ hpq (fun hb => h _ hb))
+  exact gen 0 0 (fun _ h => h)
+
+open Spec in
+theorem revBits_sub (n a sa : Nat) (h : Sub a sa) : Sub (revBits n a) (revBits n sa) := by
+  induction n generalizing a sa with
+  | zero => intro i hi; simp [revBits] at hi
+  | succ n ih =>
+    have h2 : Sub (a / 2) (sa / 2) := by
+      intro i hi
+      rw [← Nat.testBit_succ] at hi ⊢
+      exact h _ hi
+    have h0 : a % 2 = 1 → sa % 2 = 1 := by
+      intro ha
+      have := h 0 (by rw [Nat.testBit_zero]; simpa using ha)
+      rw [Nat.testBit_zero] at this; simpa using this
+    intro j hj
+    unfold revBits at hj ⊢
+    rw [Nat.mul_comm, Nat.testBit_two_pow_mul_add _ (revBits_lt n _)] at hj ⊢
+    by_cases hjn : j < n
+    · simp only [hjn, if_true] at hj ⊢
+      exact ih _ _ h2 _ hj
+    · simp only [hjn, if_false] at hj ⊢
+      have ha2 : a % 2 < 2 := Nat.mod_lt _ (by decide)
+      have : a % 2 = 1 := by
+        rcases Nat.lt_succ_iff.mp ha2 with h' 
+        rcases Nat.eq_zero_or_pos (a % 2) with h0' | h1'
+        · rw [h0'] at hj; simp at hj
+        · omega
+      rw [h0 this]; rw [this] at hj; exact hj
+
 /-! ### the expression language -/
 
 inductive LE where
@@ -222,8 +283,8 @@ def supp (s : Nat) : LE → Nat
   | .shl a n => shl (supp s a) n
   | .shlN a n => supp s a <<< n
   | .shr a n => supp s a >>> n
-  | .perm tbl _ _ => 2 ^ tbl.length - 1
-  | .rev n _ => 2 ^ n - 1
+  | .perm tbl n a => Spec.permF tbl n (supp s a)
+  | .rev n a => Spec.revBits n (supp s a)
   | .look T _ => T.foldl (· ||| ·) 0
 
 /-- a 64-entry table that is an xor-homomorphism in its index. -/
@@ -315,13 +376,13 @@ theorem sound (s : Nat) (e : LE) (h : ok s e = true) :
     simp only [eval, la x y hx hy, Nat.shiftRight_xor_distrib]
   | perm tbl n a iha =>
     simp only [ok] at h
-    obtain ⟨_, la⟩ := iha h
-    refine ⟨fun x _ => sub_of_lt (permF_lt tbl n _), fun x y hx hy => ?_⟩
+    obtain ⟨sa', la⟩ := iha h
+    refine ⟨fun x hx => permF_sub tbl n _ _ (sa' x hx), fun x y hx hy => ?_⟩
     simp only [eval, la x y hx hy, permF_xor]
   | rev n a iha =>
     simp only [ok] at h
-    obtain ⟨_, la⟩ := iha h
-    refine ⟨fun x _ => sub_of_lt (revBits_lt n _), fun x y hx hy => ?_⟩
+    obtain ⟨sa', la⟩ := iha h
+    refine ⟨fun x hx => revBits_sub n _ _ (sa' x hx), fun x y hx hy => ?_⟩
     simp only [eval, la x y hx hy, revBits_xor]
   | look T a iha =>
     simp only [ok, Bool.and_eq_true, decide_eq_true_eq] at h
